@@ -43,6 +43,7 @@ enum { NFn = 3, NPool = 3 };
 struct Hctx {                // context object handed to the library as arg; never freed before the case ends (tomb-stone)
   unsigned serial;
   bool pooled = false;
+  bool null = false;         // stands for "no context": the library is handed arg == NULL and the handler function alone identifies the pair
   int live[NFn] = {0, 0, 0};  // registrations (fn, this) the library currently holds
   int ever[NFn] = {0, 0, 0};  // ... has ever accepted
   int eol[NFn] = {0, 0, 0};   // end-of-life calls that arrived through fn
@@ -120,6 +121,7 @@ struct World {
   Table T[2];
   bool d_init = false;
   bool cxx = false;          // drive D through the C++ wrapper (mpt++/event.cpp)
+  uint8_t sel = 0;           // selector byte of the case
   int fb_kind = 0;           // 0 none, 1 harness object, 2 library default (unknownEvent)
   Reg *fb = 0;
   uintptr_t mdef = 0;        // model of dispatch._def
@@ -138,6 +140,7 @@ struct World {
     reply.vptr = &kReplyVptr; reply.replies = 0;
     g_w = this;
     for (int i = 0; i < NPool; i++) newctx()->pooled = true;
+    ctxs[0]->null = true;    // pooled context 1 is the NULL context (ids 1 and 7 in both tables, every second fallback)
     static const char *words[] = {"stop", "cont", "a", "read.file_0"};
     for (const char *s : words) add_word(s);
     add_word(std::string(127, 'y'));
@@ -194,18 +197,22 @@ struct World {
     r->id = id;
     r->fn = (int)(r->serial % NFn);
     bool shared = table != 'F' && ((id < 8 && (id & 1)) || id == kLargeId);
-    r->ctx = shared ? ctxs[(size_t)((id >> 1) % NPool)].get() : newctx();
+    // a fallback is context-free (examples/io/dispatch.c style: _err.arg = 0, set_error(fn, 0)) for every second serial, phase from bit 2 of the selector byte
+    bool nullfb = table == 'F' && ((((unsigned)sel >> 2) + r->serial + 1) & 1);
+    r->ctx = nullfb ? ctxs[0].get() : shared ? ctxs[(size_t)((id >> 1) % NPool)].get() : newctx();
     return r;
   }
   void accept(Reg *r) {      // the library holds the pair now
     r->registered = true;
+    if (r->ctx->null) c.label(r->table == 'F' ? "null-context:fallback" : "null-context:handler");
     ++r->ctx->live[r->fn];
     ++r->ctx->ever[r->fn];
   }
   static bool is(const Call &k, const Reg *r) { return r && k.o == r->ctx && k.fn == r->fn; }
+  static void *arg_of(const Reg *r) { return r->ctx->null ? 0 : r->ctx; }  // what the library gets as context pointer
   std::string who(const Reg *r) {
     char b[96];
-    snprintf(b, sizeof b, "#%u (%c id %#zx: fn%d, %scontext %u)", r->serial, r->table, (size_t)r->id, r->fn, r->ctx->pooled ? "shared " : "", r->ctx->serial);
+    snprintf(b, sizeof b, "#%u (%c id %#zx: fn%d, %scontext %u)", r->serial, r->table, (size_t)r->id, r->fn, r->ctx->null ? "NULL " : r->ctx->pooled ? "shared " : "", r->ctx->serial);
     return b;
   }
   command *slots(Table &t, size_t &n) {
@@ -254,7 +261,7 @@ struct World {
       VP_CHECK(c, seen.insert(s[i].id).second, "table-state", "%s: %s has two active slots with id %#zx", op, t.name, (size_t)s[i].id);
       const Entry &e = it->second;
       if (e.kind == KHarness)
-        VP_CHECK(c, s[i].arg == e.reg->ctx && (void *)s[i].cmd == (void *)handler_fn(e.reg->fn), "table-state", "%s: %s slot %zu id %#zx does not hold registration #%u", op, t.name, i,
+        VP_CHECK(c, s[i].arg == arg_of(e.reg) && (void *)s[i].cmd == (void *)handler_fn(e.reg->fn), "table-state", "%s: %s slot %zu id %#zx does not hold registration #%u", op, t.name, i,
                  (size_t)s[i].id, e.reg->serial);
       else if (e.kind == KHashFwd)
         VP_CHECK(c, (void *)s[i].cmd == (void *)mpt_dispatch_hash && s[i].arg == (void *)d.get(), "table-state", "%s: %s slot %zu id %#zx lost the hash forwarder", op, t.name, i, (size_t)s[i].id);
@@ -320,7 +327,7 @@ struct World {
         log.clear();
         fb = newreg('F', 0);
         accept(fb);
-        d->set_error(handler_fn(fb->fn), fb->ctx);
+        d->set_error(handler_fn(fb->fn), arg_of(fb));
         expect("set_error", {});
         fb_kind = 1;
       }
@@ -338,7 +345,7 @@ struct World {
       fb = newreg('F', 0);
       accept(fb);
       d->_err.cmd = handler_fn(fb->fn);
-      d->_err.arg = fb->ctx;
+      d->_err.arg = arg_of(fb);
       fb_kind = 1;
     } else fb_kind = style == 2 ? 2 : 0;
     d_init = true;
@@ -378,8 +385,8 @@ struct World {
     note_create(t, true);
     log.clear();
     int ret;
-    if (cxx) ret = (fwd ? d->set_handler(id, (event_handler_t)mpt_dispatch_hash, d.get()) : d->set_handler(id, handler_fn(r->fn), r->ctx)) ? 0 : -1;
-    else ret = fwd ? mpt_dispatch_set(d, id, (event_handler_t)mpt_dispatch_hash, d.get()) : mpt_dispatch_set(d, id, handler_fn(r->fn), r->ctx);
+    if (cxx) ret = (fwd ? d->set_handler(id, (event_handler_t)mpt_dispatch_hash, d.get()) : d->set_handler(id, handler_fn(r->fn), arg_of(r))) ? 0 : -1;
+    else ret = fwd ? mpt_dispatch_set(d, id, (event_handler_t)mpt_dispatch_hash, d.get()) : mpt_dispatch_set(d, id, handler_fn(r->fn), arg_of(r));
     c.logf("mpt_dispatch_set(D, %#zx, %s) = %d  (%s)", (size_t)id, fwd ? "mpt_dispatch_hash" : "handler", ret, was ? "id is registered" : "id is free");
     if (r) c.logf("  new registration %s", who(r).c_str());
     if (ret >= 0) registered(t, id, Entry{fwd ? KHashFwd : KHarness, r}, hole, "dispatch_set");
@@ -424,7 +431,7 @@ struct World {
     int ret;
     if (del) ret = mpt_command_set(t.arr, id, 0, 0);
     else if (fwd) ret = mpt_command_set(t.arr, id, (int (*)(void *, void *))mpt_dispatch_hash, d.get());
-    else ret = mpt_command_set(t.arr, id, handler_raw(r->fn), r->ctx);
+    else ret = mpt_command_set(t.arr, id, handler_raw(r->fn), arg_of(r));
     c.logf("mpt_command_set(%s, %#zx, %s) = %d  (%s)", t.name, (size_t)id, del ? "NULL" : fwd ? "mpt_dispatch_hash" : "handler", ret, was ? "id is registered" : "id is free");
     if (r) c.logf("  new registration %s", who(r).c_str());
     if (del) {
@@ -461,7 +468,7 @@ struct World {
     if (it == t.live.end()) VP_CHECK(c, !cmd, "get-mismatch", "mpt_command_get(%s, %#zx) finds an entry (id %#zx) although the id is not registered", t.name, (size_t)id, (size_t)cmd->id);
     else {
       VP_CHECK(c, cmd && cmd->cmd && cmd->id == id, "get-mismatch", "mpt_command_get(%s, %#zx) does not find the registered entry", t.name, (size_t)id);
-      if (it->second.kind == KHarness) VP_CHECK(c, cmd->arg == it->second.reg->ctx && cmd->cmd == handler_raw(it->second.reg->fn), "get-mismatch", "mpt_command_get(%s, %#zx) returns another registration", t.name, (size_t)id);
+      if (it->second.kind == KHarness) VP_CHECK(c, cmd->arg == arg_of(it->second.reg) && cmd->cmd == handler_raw(it->second.reg->fn), "get-mismatch", "mpt_command_get(%s, %#zx) returns another registration", t.name, (size_t)id);
     }
     c.label(cmd ? "get:found" : "get:absent");
   }
@@ -492,7 +499,7 @@ struct World {
       Reg *r = newreg(t.name[0], id);
       accept(r);
       cmd->cmd = handler_raw(r->fn);
-      cmd->arg = r->ctx;
+      cmd->arg = arg_of(r);
       t.live[id] = Entry{KHarness, r};
       c.logf("  activated as registration %s", who(r).c_str());
     } else t.live[id] = Entry{KLogReply, 0};
@@ -513,7 +520,7 @@ struct World {
     auto it = t.live.find(id);
     VP_CHECK(c, cmd && it != t.live.end(), "get-mismatch", "mpt_command_get(%s, %#zx) does not find the live entry to release", t.name, (size_t)id);
     if (it->second.kind == KHarness) {
-      VP_CHECK(c, cmd->arg == it->second.reg->ctx && cmd->cmd == handler_raw(it->second.reg->fn), "get-mismatch", "mpt_command_get(%s, %#zx) returns another registration", t.name, (size_t)id);
+      VP_CHECK(c, cmd->arg == arg_of(it->second.reg) && cmd->cmd == handler_raw(it->second.reg->fn), "get-mismatch", "mpt_command_get(%s, %#zx) returns another registration", t.name, (size_t)id);
       it->second.reg->released = true;
       --it->second.reg->ctx->live[it->second.reg->fn];
     }
@@ -739,6 +746,7 @@ struct World {
       check_seen(op, seen_id, msg, true);
       emit_result(op, ret, seen_id, via_hash);
       c.label(want == fb ? "emit:to-fallback" : "emit:to-registered");
+      if (want->ctx->null) c.label("emit:to-null-context");
       if (want != fb && touched) c.nontrivial();
       if (want != fb && touched) c.label("emit:after-replace-or-reuse");
     } else {
@@ -927,13 +935,14 @@ struct World {
     fb_kind = 0;
     c.label("fini");
     if (nlive >= 2) { c.label("fini:live>=2"); c.nontrivial(); }
+    for (const Exp &e : exp) if (e.r->ctx->null) c.label(e.r->table == 'F' ? "fini:null-context-fallback" : "fini:null-context-handler");
   }
   // ---- C++ wrapper only ------------------------------------------------------------------------------
   void op_set_error() {
     Reg *old = fb_kind == 1 ? fb : 0;
     Reg *r = newreg('F', 0);
     log.clear();
-    d->set_error(handler_fn(r->fn), r->ctx);
+    d->set_error(handler_fn(r->fn), arg_of(r));
     accept(r);
     c.logf("dispatch::set_error(handler): new fallback %s", who(r).c_str());
     std::vector<Exp> exp;
@@ -989,15 +998,15 @@ struct World {
       for (int f = 0; f < NFn; f++) {
         int w = want.count({p.get(), f}) ? want[{p.get(), f}] : 0;
         VP_CHECK(c, p->eol[f] == w, p->eol[f] < w ? "eol-missing" : "eol-twice", "end of case: (fn%d, %scontext %u) got %d end-of-life calls, %d registrations of the pair ended", f,
-                 p->pooled ? "shared " : "", p->serial, p->eol[f], w);
+                 p->null ? "NULL " : p->pooled ? "shared " : "", p->serial, p->eol[f], w);
       }
   }
 };
 
 static int h_common(int fn, void *arg, event *ev) {
   World *w = g_w;
-  Hctx *o = static_cast<Hctx *>(arg);
   if (!w) return 0;
+  Hctx *o = arg ? static_cast<Hctx *>(arg) : w->ctxs[0].get();  // no context: booked under the NULL context, keyed by the function
   Call k;
   k.o = o;
   k.fn = fn;
@@ -1030,6 +1039,7 @@ static void run(Ctx &c) {
   uint8_t sel = c.u8();  // scenario selector
   World w(c);
   w.cxx = (sel & 3) == 3;
+  w.sel = sel;
   c.label(w.cxx ? "scenario:c++-wrapper" : "scenario:c-api");
   w.op_init();
   while (c.more()) {
